@@ -193,3 +193,7 @@ package wamp
 //@ func DictValue
 //@   props C04
 //@   requires len(path) >= 1
+
+//@ func DictFlag
+//@   props C04
+//@   requires len(path) >= 1
